@@ -73,6 +73,14 @@ fn attr_of(v: &str) -> f32 {
         _ => 25.0,
     }
 }
+/// the mod selection as the GameMods value handed to the setters ("CL": the lazer-only Classic mod, an intermode set)
+fn mods_val(v: &str) -> rosu_pp::GameMods {
+    if v == "CL" {
+        crate::settings::Cfg { mods: 8, ..Default::default() }.with_acronyms("CL").game_mods()
+    } else {
+        mods_of(v).into()
+    }
+}
 fn mods_of(v: &str) -> u32 {
     match v {
         "NM" => 0,
@@ -90,7 +98,7 @@ fn passed_of(v: &str) -> u32 {
 
 fn apply_diff(d: Difficulty, c: &Call) -> Difficulty {
     match c.f.as_str() {
-        "mods" => d.mods(mods_of(&c.v)),
+        "mods" => d.mods(mods_val(&c.v)),
         "passed" => d.passed_objects(passed_of(&c.v)),
         "clock" => d.clock_rate(clock_of(&c.v)),
         "ar" => d.ar(attr_of(&c.v), c.w),
@@ -105,7 +113,7 @@ fn apply_diff(d: Difficulty, c: &Call) -> Difficulty {
 
 fn apply_perf<'a>(p: Performance<'a>, c: &Call) -> Performance<'a> {
     match c.f.as_str() {
-        "mods" => p.mods(mods_of(&c.v)),
+        "mods" => p.mods(mods_val(&c.v)),
         "passed" => p.passed_objects(passed_of(&c.v)),
         "clock" => p.clock_rate(clock_of(&c.v)),
         "ar" => p.ar(attr_of(&c.v), c.w),
@@ -162,7 +170,7 @@ fn expected_inspect(a: &AbsDiff) -> String {
     };
     format!(
         "mods={} passed={} clock={} ar={} cs={} hp={} od={} hro={} lazer={}",
-        if g("mods").v == "none" { 0 } else { mods_of(&g("mods").v) },
+        if g("mods").v == "none" { 0 } else if g("mods").v == "CL" { u32::MAX } else { mods_of(&g("mods").v) },
         if g("passed").v == "none" { "None".into() } else { format!("Some({})", passed_of(&g("passed").v)) },
         if g("clock").v == "none" { "None".into() } else { format!("Some({:?})", clock_of(&g("clock").v).clamp(0.01, 100.0)) },
         attr("ar"),
@@ -243,7 +251,7 @@ fn run_setters(i: usize, sc: &Scenario, maps: &Maps, out: &mut Vec<Value>, check
         let g = |f: &str| sc.calls.iter().rev().find(|c| c.f == f).map(|c| Val { v: c.v.clone(), w: c.w });
         let attr = |f: &str| g(f).map(|v| ModsDependent { value: attr_of(&v.v), with_mods: v.w });
         let hand = InspectDifficulty {
-            mods: g("mods").map_or(0u32, |v| mods_of(&v.v)).into(),
+            mods: g("mods").map_or_else(|| 0u32.into(), |v| mods_val(&v.v)),
             passed_objects: g("passed").map(|v| passed_of(&v.v)),
             clock_rate: g("clock").map(|v| clock_of(&v.v)),
             ar: attr("ar"),
